@@ -229,6 +229,8 @@ func cmdRobust(args []string) {
 	out := fs.String("out", "", "NDJSON findings")
 	summary := fs.String("summary", "", "summary JSON")
 	tokenEvery := fs.Int("token-every", 1, "apply token deletions/duplications to every K-th case (0: never)")
+	stride := fs.Int("stride", 1, "use every K-th case only")
+	offset := fs.Int("offset", 0, "first case of the stride")
 	noInterp := fs.Bool("no-interp", false, "do not run the interpreter runtime")
 	workers := fs.Int("workers", runtime.NumCPU(), "parallel workers")
 	fs.Parse(args)
@@ -255,7 +257,10 @@ func cmdRobust(args []string) {
 		if err := json.Unmarshal(lines[i], &c); err != nil {
 			fatal("case %d: %v", i, err)
 		}
-		tm := *tokenEvery > 0 && i%*tokenEvery == 0
+		if *stride > 1 && i%*stride != *offset%*stride && c.Inject == "" {
+			return
+		}
+		tm := *tokenEvery > 0 && (i / *stride)%*tokenEvery == 0
 		o := ns.RunRobust(&c, tm, !*noInterp, seenFn)
 		mu.Lock()
 		sum["cases"]++
